@@ -94,17 +94,16 @@ func (n *averageNode) Next() (bool, error) {
 
 		if count == 0 {
 			n.currentValue.Fields[n.virtualFieldIndex] = float64(0)
-			return true, nil
-		}
-
-		sumProp := n.currentValue.Fields[n.sumFieldIndex]
-		switch sum := sumProp.(type) {
-		case float64:
-			n.currentValue.Fields[n.virtualFieldIndex] = sum / float64(count)
-		case int64:
-			n.currentValue.Fields[n.virtualFieldIndex] = float64(sum) / float64(count)
-		default:
-			return false, client.NewErrUnhandledType("sum", sumProp)
+		} else {
+			sumProp := n.currentValue.Fields[n.sumFieldIndex]
+			switch sum := sumProp.(type) {
+			case float64:
+				n.currentValue.Fields[n.virtualFieldIndex] = sum / float64(count)
+			case int64:
+				n.currentValue.Fields[n.virtualFieldIndex] = float64(sum) / float64(count)
+			default:
+				return false, client.NewErrUnhandledType("sum", sumProp)
+			}
 		}
 
 		passes, err := mapper.RunFilter(n.currentValue, n.aggregateFilter)
